@@ -175,6 +175,9 @@ func ruleZeroWidthGuard(c *Ctx, rule string) {
 						}
 					case *ssa.Return:
 						escaped = c.pos(x.Pos())
+						if escaped == "" {
+							escaped = "end of " + f.Name()
+						}
 						return
 					}
 				}
@@ -944,6 +947,34 @@ func ruleReaderLifetime(c *Ctx, rule string) {
 			})
 		}
 	}
+	// a function that closes the reader it is handed on every path takes over the duty of closing it: for its callers the call is the
+	// Close. closers[f] = index of that parameter.
+	closers := map[*ssa.Function]int{}
+	for _, fn := range c.SrcFuncs("engine") {
+		if len(fn.Blocks) == 0 {
+			continue
+		}
+		fpd := NewPostDom(fn)
+		for i, p := range fn.Params {
+			isDirect := func(v ssa.Value) bool { return v == ssa.Value(p) }
+			done := false
+			instrsOf(fn, func(in ssa.Instruction) {
+				switch y := in.(type) {
+				case *ssa.Call:
+					if y.Call.StaticCallee() == closeF && len(y.Call.Args) == 1 && isDirect(y.Call.Args[0]) && fpd.PostDominates(y.Block(), fn.Blocks[0]) {
+						done = true
+					}
+				case *ssa.Defer:
+					if y.Call.StaticCallee() == closeF && len(y.Call.Args) == 1 && isDirect(y.Call.Args[0]) && y.Block() == fn.Blocks[0] {
+						done = true
+					}
+				}
+			})
+			if done {
+				closers[fn] = i
+			}
+		}
+	}
 	n := 0
 	for _, fn := range c.SrcFuncs("engine") {
 		if ctors[fn] {
@@ -1011,6 +1042,11 @@ func ruleReaderLifetime(c *Ctx, rule string) {
 							closed = true
 						}
 					}
+					if idx, isCloser := closers[y.Call.StaticCallee()]; isCloser && idx < len(y.Call.Args) && alias[y.Call.Args[idx]] {
+						if pd.PostDominates(y.Block(), call.Block()) {
+							closed = true
+						}
+					}
 				case *ssa.Defer:
 					if y.Call.StaticCallee() == closeF && len(y.Call.Args) == 1 && alias[y.Call.Args[0]] {
 						closed = true
@@ -1064,6 +1100,38 @@ func ruleReaderLifetime(c *Ctx, rule string) {
 				}
 			}
 			walk(arg, 0)
+			if _, takesOver := closers[fn]; takesOver && isParam {
+				// closes what it is handed on every path: its callers are checked to treat the call as the Close (a second Close or a
+				// use after the call would be a use of a closed reader)
+				bad := ""
+				for _, caller := range c.callersIn("engine", fn) {
+					for _, cl := range callsTo(caller, fn) {
+						idx := closers[fn]
+						if idx >= len(cl.Call.Args) {
+							continue
+						}
+						rd := cl.Call.Args[idx]
+						instrsOf(caller, func(z ssa.Instruction) {
+							zc, ok := z.(ssa.CallInstruction)
+							if !ok || z == ssa.Instruction(cl) {
+								return
+							}
+							for _, a := range zc.Common().Args {
+								if a == rd && instrDominates(cl, z) {
+									bad = fnName(caller) + " uses the reader after " + fn.Name() + " closed it [" + c.pos(z.Pos()) + "]"
+								}
+							}
+						})
+					}
+				}
+				ob := r.Ob(rule, fnName(fn)+": closes the reader it is handed, on every path", c.pos(call.Pos()))
+				if bad == "" {
+					ob.OKnt("ownership passes to this function; no caller touches the reader after the call")
+				} else {
+					ob.Bad(bad)
+				}
+				return
+			}
 			if isParam {
 				r.Ob(rule, fnName(fn)+": closes a reader it did not open", c.pos(call.Pos())).Bad("Close is called on a reader received as a parameter: the opener closes it again (Close panics on a closed file) or keeps using it")
 			}
